@@ -7,6 +7,7 @@
 (*   sbegin: a new stream starts (ends = record boundaries)                 *)
 (*   sread : one Read call returned got bytes        -> AbsRead(got)        *)
 (*   sret  : DecodeBebop returned nil                -> AbsReturn           *)
+(*   sabort: the harness stopped recording (more than 2000 Read calls)      *)
 (* Traces of many streams are concatenated; an event that StreamAbs does    *)
 (* not allow is reported and the rest of that stream is skipped.            *)
 (***************************************************************************)
@@ -45,10 +46,15 @@ TraceReject == /\ l <= Len(Trace) /\ Trace[l].ev \in {"sread", "sret"} /\ ok
                /\ l' = l + 1 /\ ok' = FALSE /\ nBad' = nBad + 1
                /\ UNCHANGED <<ends, rec, rpos, nStreams>>
 
+\* the harness stopped recording this stream (more Read calls than it keeps): the rest is not judged at read level
+\* (the per-record observations of the same run are judged by Trace_Wire)
+TraceAbort == /\ IsEvent("sabort")
+              /\ ok' = FALSE /\ UNCHANGED <<ends, rec, rpos, nBad, nStreams>>
+
 TraceSkip == /\ l <= Len(Trace) /\ Trace[l].ev \in {"sread", "sret"} /\ ~ok
              /\ l' = l + 1 /\ UNCHANGED <<ends, rec, rpos, ok, nBad, nStreams>>
 
-Next == TraceBegin \/ TraceRead \/ TraceReturn \/ TraceReject \/ TraceSkip
+Next == TraceBegin \/ TraceRead \/ TraceReturn \/ TraceReject \/ TraceSkip \/ TraceAbort
 Spec == Init /\ [][Next]_tvars
 
 TraceAccepted == TLCGet("stats").diameter - 1 = Len(Trace)
